@@ -12,9 +12,9 @@ Size == IF "MC_SIZE" \in DOMAIN IOEnv THEN IOEnv.MC_SIZE ELSE "quick"
 
 VARIABLES cfg, mem, last
 
-Alpha8Quick == {0, 1, 2, 9, 10, 16, 85, 127, 128, 144, 153, 154, 160, 170, 254, 255}
+Alpha8Quick == {0, 9, 127, 128, 154, 255}
 Alpha8 == IF Size = "quick" THEN Alpha8Quick ELSE 0..255
-Alpha16 == {0, 1, 9, 128, 154, 255}
+Alpha16 == IF Size = "quick" THEN {0, 154, 255} ELSE {0, 1, 9, 128, 154, 255}
 Alpha24 == {0, 129, 255}
 
 TypesFor(w) == {"UInt", "Int", "Bcd", "EnumU", "EnumS"} \cup (IF w = 1 THEN {"Flag"} ELSE {})
@@ -32,9 +32,13 @@ Some24 == { <<0, 24>>, <<0, 17>>, <<3, 17>>, <<7, 17>>, <<7, 10>>, <<15, 2>>, <<
 Types16(w) == {"UInt", "Int", "Bcd"}
 Types24(w) == {"UInt", "Int"}
 
+UIntInt(w) == {"UInt", "Int"}
+Crossing16Quick == { p \in Crossing16 : p[1] + p[2] \in {9, 12, 16} /\ p[1] \in {0, 3, 4, 7} }
 AllCfgs ==
-    LET raw == MkCfgs(8, Placements(8), {"LE", "BE", "Null"}, TypesFor)
-               \cup MkCfgs(16, IF Size = "quick" THEN Crossing16 ELSE Placements(16), {"LE", "BE"}, Types16)
+    LET raw == (IF Size = "quick"
+                THEN MkCfgs(8, Placements(8), {"LE"}, TypesFor) \cup MkCfgs(8, Placements(8), {"BE", "Null"}, UIntInt)
+                ELSE MkCfgs(8, Placements(8), {"LE", "BE", "Null"}, TypesFor))
+               \cup MkCfgs(16, IF Size = "quick" THEN Crossing16Quick ELSE Placements(16), {"LE", "BE"}, Types16)
                \cup MkCfgs(24, Some24, {"LE", "BE"}, Types24)
     IN  { k \in raw : IF k.t \in {"EnumU", "EnumS"} THEN k.u \in {8, 64} ELSE k.u = 0 }
 
@@ -43,20 +47,26 @@ MCMemOf(k) ==
       [] k.c = 16 -> { <<a, b>> : a \in Alpha16, b \in Alpha16 }
       [] OTHER -> { <<a, b, d>> : a \in Alpha24, b \in Alpha24, d \in Alpha24 }
 
-MCSyms == {"min-1", "min", "-1", "0", "1", "max", "max+1", "2^w-1", "2^w", "mid", "9s"}
+MCSyms == IF Size = "quick" THEN {"min-1", "min", "max", "max+1", "2^w", "mid"}
+          ELSE {"min-1", "min", "-1", "0", "1", "max", "max+1", "2^w-1", "2^w", "mid", "9s"}
 
 S == INSTANCE Scalar WITH Cfgs <- AllCfgs, MemOf <- MCMemOf, Syms <- MCSyms
 
 Init == S!Init
-Next == S!Next
-(* one operation per initial state is enough: every (cfg, mem) is an initial state *)
-OneStep == last.op = "init"
+(* one operation per loaded state is enough (every (cfg, mem) gets loaded): the *)
+(* MC explores the restriction of S!Next to behaviours boot.chosen.init.op      *)
+MCChoose == last.op = "boot" /\ S!Choose
+MCLoad == last.op = "chosen" /\ S!Load
+MCRead == last.op = "init" /\ S!Read
+MCWrite == last.op = "init" /\ \E s \in MCSyms : S!Write(s)
+Next == MCChoose \/ MCLoad \/ MCRead \/ MCWrite
 
 TypeOK == S!TypeOK
 ReadInRange == S!ReadInRange
 OrderDuality == S!OrderDuality
 CodecInverse == S!CodecInverse
 WritePost == S!WritePost
+BcdFormsAgree == S!BcdFormsAgree
 SymSane == S!SymSane
 
 (* Float configurations cannot live in <= 24 bit containers; they are checked *)
